@@ -178,6 +178,7 @@ class Pair:
             self.worker.serve()
         finally:
             self.serve_returned = True
+            self.serve_returned_at = self.sc.clock
 
     def restore(self):
         self.gb.os.kill, self.gb.os._exit = self._orig
